@@ -1604,6 +1604,22 @@ def c16(tier):
                     pool.append(hexs(pack([(dfx, 5), (rng.getrandbits(3), 3), (acs[2], 24)]) + bits_of(rng.getrandbits(80), 80)))
                 lines = [list(rng.choice(pool).encode()) for _ in range(rng.randrange(5, 60 if tier == 'quick' else 400))]
                 events.append(cli_event(binary, prof, opts, lines, len(events) + 1))
+    # the counter line and the set of rows after EVERY frame (one refresh per frame with --update=-1), streams of the nine formats
+    cbr = vlib.build_cli('release')
+    for k in range(6 if tier == 'quick' else 60):
+        fs = [[17], [4, 5], [11, 17, 20], [21], [5, 17, 0, 16], [20, 21, 49]][k % 6]
+        opts = ['-c'] + [x for d in fs for x in ('-f', str(d))] + (['-U'] if k % 2 else [])
+        pool = []
+        for a in [0x4d3000 + rng.getrandbits(8) for _ in range(3)]:
+            pool += nine_frames(a, rng)
+        pool += nine_frames(0, rng)[:4] + ['zz', '8D']
+        lines = [list(rng.choice(pool).encode()) for _ in range(rng.randrange(10, 50))]
+        e = cli_event(cbr, 'release', opts, lines, len(events) + 1, keep_snaps=True)
+        e['e'] = 'clistream'
+        e['args']['U'] = '-U' in opts
+        e['args']['R'] = False
+        e.pop('last', None)
+        events.append(e)
     tr = os.path.join(vlib.workdir(), 'c16cli.trace.ndjson')
     vlib.write_ndjson(tr, events)
     rep.add_validation(vlib.validate([tr], 'C16'))
@@ -1611,7 +1627,7 @@ def c16(tier):
     rep.rule = ('streams mixing all nine formats for 3-4 aircraft, address-zero frames and rejected lines, under -f subsets %s: in-process every '
                 'line is judged (frame of an unlisted format => table untouched); the real CLI is run with --update=-1 [-c] and TLC recomputes '
                 'from the input lines the expected "DFn:count" line (ascending DF, applied frames only) and the expected set of aircraft of '
-                'the last refresh. Non-trivial = accepted frame under a filter / CLI run with at least one applied frame' %
+                'the last refresh; and, refresh by refresh, the counter line and the set of rows after every single frame. Non-trivial = accepted frame under a filter / CLI run with at least one applied frame' %
                 ('(all 64 subsets of {4,5,11,17,20,21} and unsupported numbers)' if tier == 'thorough' else str(subsets)))
     vlib.nt_floor(rep, 100)
     return rep
